@@ -1874,3 +1874,75 @@ def search_loop_to_any(tree: ast.Module) -> None:
                             ast.copy_location(x, st)
                     body[i] = new
     ast.fix_missing_locations(tree)
+
+
+def deferred_job_list(tree: ast.Module) -> None:
+    """L = []; [if C:] L.append(T) ...; for TARGET in L: BODY      (L used nowhere else, the T's and C's read-only over names that BODY and the
+    statements in between do not assign, no break / continue in BODY)
+         ->   [if C:] (TARGET = T; BODY)  for every append, in order.
+    A list of jobs filled first and worked off afterwards does, job by job, what the straight-line code does."""
+    for fn in [n for n in ast.walk(tree) if isinstance(n, (ast.FunctionDef, ast.AsyncFunctionDef))]:
+        for holder in ast.walk(fn):
+            for fld in ("body", "orelse", "finalbody"):
+                body = getattr(holder, fld, None)
+                if not (isinstance(body, list) and body and isinstance(body[0], ast.stmt)):
+                    continue
+                i = 0
+                while i < len(body):
+                    st = body[i]
+                    i += 1
+                    tgt = val = None
+                    if isinstance(st, ast.Assign) and len(st.targets) == 1 and isinstance(st.targets[0], ast.Name):
+                        tgt, val = st.targets[0].id, st.value
+                    elif isinstance(st, ast.AnnAssign) and isinstance(st.target, ast.Name) and st.value is not None:
+                        tgt, val = st.target.id, st.value
+                    if tgt is None or not (isinstance(val, ast.List) and not val.elts):
+                        continue
+                    L = tgt
+                    jobs: List[Tuple[Optional[ast.expr], ast.expr]] = []
+                    j = i
+                    ok = True
+                    while j < len(body):
+                        x = body[j]
+                        app = None
+                        cond = None
+                        if isinstance(x, ast.Expr):
+                            app = x.value
+                        elif isinstance(x, ast.If) and not x.orelse and len(x.body) == 1 and isinstance(x.body[0], ast.Expr):
+                            app, cond = x.body[0].value, x.test
+                        if isinstance(app, ast.Call) and isinstance(app.func, ast.Attribute) and app.func.attr == "append" and isinstance(app.func.value, ast.Name) and app.func.value.id == L \
+                                and len(app.args) == 1 and not app.keywords:
+                            jobs.append((cond, app.args[0]))
+                            j += 1
+                            continue
+                        break
+                    if not jobs or j >= len(body) or not (isinstance(body[j], ast.For) and isinstance(body[j].iter, ast.Name) and body[j].iter.id == L and not body[j].orelse):
+                        continue
+                    loop = body[j]
+                    # L is used nowhere else
+                    uses = sum(1 for n in ast.walk(fn) if isinstance(n, ast.Name) and n.id == L)
+                    if uses != 1 + len(jobs) + 1:
+                        continue
+                    if any(isinstance(n, (ast.Break, ast.Continue)) for x in loop.body for n in ast.walk(x)):
+                        continue
+                    stored_in_body = {n.id for x in loop.body for n in ast.walk(x) if isinstance(n, ast.Name) and isinstance(n.ctx, (ast.Store, ast.Del))}
+                    tnames = {n.id for n in ast.walk(loop.target) if isinstance(n, ast.Name)}
+                    for c, t in jobs:
+                        for e in ([c] if c is not None else []) + [t]:
+                            if not _read_only(e) or any(isinstance(n, ast.Name) and (n.id in stored_in_body or n.id in tnames) for n in ast.walk(e)):
+                                ok = False
+                    if not ok:
+                        continue
+                    new: List[ast.stmt] = []
+                    for c, t in jobs:
+                        blk: List[ast.stmt] = [ast.Assign(targets=[copy.deepcopy(loop.target)], value=copy.deepcopy(t))] + [copy.deepcopy(x) for x in loop.body]
+                        if c is not None:
+                            blk = [ast.If(test=copy.deepcopy(c), body=blk, orelse=[])]
+                        new.extend(blk)
+                    for x in new:
+                        for y in ast.walk(x):
+                            if isinstance(y, (ast.stmt, ast.expr)) and not hasattr(y, "lineno"):
+                                ast.copy_location(y, loop)
+                    body[i - 1:j + 1] = new
+                    i = i - 1 + len(new)
+    ast.fix_missing_locations(tree)
